@@ -52,7 +52,7 @@ def op (j : Json) : P Op := do
   | "scn_remove_lanelets" => pure (.scnRemoveLanelets (← getList rmArg j "args") (← getBool j "ref"))
   | "scn_remove_signs" => pure (.scnRemoveSigns (← ids j "xs"))
   | "scn_remove_lights" => pure (.scnRemoveLights (← ids j "xs"))
-  | "scn_remove_inter" => pure (.scnRemoveInter (← getNat j "x") (← ids j "incs"))
+  | "scn_remove_inter" => pure (.scnRemoveInter (← getNat j "x"))
   | "cut_out" => pure (.cutOut (← ids j "keep") (← getBool j "cleanup"))
   | "from_list" => pure (.fromList (← ids j "sel") (← getBool j "cleanup"))
   | o => throw s!"C10: unknown history op {o}"
